@@ -178,7 +178,12 @@ def rule_fmt(ctx: Ctx) -> RuleResult:
             first = vv.values[0]
             if isinstance(first, ast.Name):
                 first = inline_locals(f, first, r, depth=1)
-            ok = _is_empty_sid(vv.values[-1]) and isinstance(first, ast.Call) and norm(first.func) == "_sid.get_with"
+            # the receiver is the Sid that was asked about: a local bound (only) to Sid(<the sid parameter>)
+            recv_ok = False
+            if isinstance(first, ast.Call) and isinstance(first.func, ast.Attribute) and first.func.attr == "get_with" and isinstance(first.func.value, ast.Name):
+                rds = [d for d in flow.all_defs if d.var == first.func.value.id]
+                recv_ok = bool(rds) and all(d.kind == "assign" and d.value is not None and norm(d.value) == f"Sid({f.params[1]})" for d in rds)
+            ok = _is_empty_sid(vv.values[-1]) and recv_ok
         if ok:
             res.ok(f"NextGetter: `{norm(r)}`", "`_sid.get_with(version=...) or Sid()`: only the version changes; an invalid result becomes the empty Sid")
         else:
